@@ -116,6 +116,12 @@ CLAIMS = {
         note="Partial; value-level clauses are outside static reach.",
         ref="DESIGN.md section 3, C18",
     ),
+    "C06": dict(
+        technique="static analysis: resource/handle pairing on all exits (path-sensitive dataflow with exceptions and generator-close injected at every call/await/yield), close-once rule for the user's iterable, wait-for (lock-order style) rule on the queue hand-off, FIFO/yield-every-item shape",
+        text="Interleavings and deadlines are schedule-quantified and not decided. Decided structural necessary conditions: every background task/future is cancelled or awaited on every exit of its creator, in a finally; the user's iterable is closed exactly once on every exit of the relay, the ASGI stream generator and the ASGI streaming __call__ (WSGI streams delegate with yield from); a join-like wait of the closing consumer on a thread relay is legal only if the relay's puts on the bounded queue cannot block forever (non-blocking/timed put, unbounded queue, or a consumer that drains until the relay is done) - this rule found the WSGI deadlock F10, since repaired - and on asyncio the task outcome is read only after cancel() returned False; the stop flag is raised in the finally and tested by the relay loop; the hand-off is a FIFO queue with one producer loop and a consumer that yields every dequeued non-sentinel item once.",
+        note="Partial: a sufficient-condition table for absence of the deadlock, not a proof of termination under all schedules; unrecognised synchronisation idioms are UNDECIDED. Trusted: Future.cancel semantics, PEP 380 close forwarding.",
+        ref="DESIGN.md section 3, C06",
+    ),
 }
 
 NOT_APPLICABLE = {
@@ -147,7 +153,7 @@ def main() -> None:
                 }
             )
         else:
-            na.append({"property_id": pid, "reason": NOT_APPLICABLE.get(pid, "check not yet built in this session (planned in DESIGN.md); not claimed until it exists")})
+            na.append({"property_id": pid, "reason": NOT_APPLICABLE[pid]})
     m = {
         "version": 1,
         "setup_cmd": "python3 -c 'import ast, re._parser, re._constants'",
